@@ -291,6 +291,11 @@ func (fc *FnCtx) emitAxioms() {
 				syms = append(syms, sym(n))
 			}
 		}
+		for g := range fc.eng.cs.Ghosts {
+			if gs := sym("ghost:" + g + "@0"); strings.Contains(t, gs) {
+				syms = append(syms, gs)
+			}
+		}
 		if fc.vc.axLines == nil {
 			fc.vc.axLines = map[int]axLine{}
 		}
